@@ -429,9 +429,11 @@ def rule_after_head(ctx):
     """`the response head [is followed] by the body state, redirect or cleanup according to C06`: the successor table
     (R06.2) and the redirect-detection table (R15.2: Redirect exactly for 3xx other than 304, from both RecvResponse and
     RecvBody), shared with C06 / C15"""
-    from . import rules_c06, rules_redirect
+    from . import rules_c06, rules_redirect, rules_bodies
     rules_c06.rule_tables(ctx)
     rules_redirect.rule_c15_detection(ctx)
+    # the body state is left only when the body is complete (or close-delimited): R08.3 completion predicates / readiness gate
+    rules_bodies.rule_c08_completion(ctx)
 
 
 RULES = [rule_typestate, rule_edges, rule_selectors, rule_after_head, rule_readiness, rule_inventory]
